@@ -160,6 +160,10 @@ def cmd_check(pid, tier, seed):
         print('UNDECIDED property=%s reason=duplicate obligation names %s' % (pid, dup))
         return 2
     verbose = os.environ.get('VERIF_VERBOSE')
+    err = vplib.build_libs(workroot, sorted(set(j.config for j in sel)))
+    if err:
+        print('UNDECIDED property=%s reason=%s' % (pid, err[:600]))
+        return 2
 
     def prog(d, n, r):
         if verbose or r.status != 'ok':
@@ -168,6 +172,7 @@ def cmd_check(pid, tier, seed):
     results = vplib.run_jobs(sel, workroot, keep=True, progress=prog)
 
     obligations = discharged = 0
+    known_failed = 0
     undecided, violations, knowns = [], [], []
     funcs, samples, bounded, warnings, assumptions = set(), [], [], set(), set(GLOBAL_ASSUMPTIONS)
     solver_s = 0.0
@@ -207,6 +212,9 @@ def cmd_check(pid, tier, seed):
             continue
         kn = [(p, match_known(known, pid, j, p)) for p in bad]
         unknown = [p for p, f in kn if f is None]
+        n_known = sum(1 for p, f in kn if f is not None)
+        obligations -= n_known            # obligations that fail because of a recorded finding are listed, not claimed
+        known_failed += n_known
         seenk = set()
         for p, f in kn:
             if f is not None and id(f) not in seenk:
@@ -279,6 +287,7 @@ def cmd_check(pid, tier, seed):
         'tool_warnings': sorted(warnings)[:20],
         'samples': samples,
         'known_findings_listed': [f.get('what') for _, f in knowns],
+        'obligations_failing_due_to_known_findings': known_failed,
         'static_scan': scan_info,
         'explanation': ((override_txt + ' ' if override_txt else '') + 'Contract-based deductive verification of the real C code with CBMC code contracts; '
                         'each named obligation = one function enforced against one contract with callees replaced by their contracts. '
